@@ -36,7 +36,7 @@ ASSUMPTIONS = ["faults are injected through public extension points (hooks, cust
 
 TITLES = {"not_a_server_error": "Server error", "status_code_conformance": "Undocumented HTTP status code", "content_type_conformance": "Undocumented Content-Type", "response_schema_conformance": "Response violates schema"}
 BEHAVIOURS = ["ok", "ok", "500", "500-after-2", "500-json-then-text", "wrong-content-type", "undocumented-status", "bad-body"]
-FAULTS = [None, None, "malformed-operation", "binary-example", "before_init_operation", "before_generate_query", "map_query", "map_case", "before_call", "after_call", "check-runtime-error", "drop-connection", "handler-raises", "serializer"]
+FAULTS = [None, None, "malformed-operation", "binary-example", "before_init_operation", "before_generate_query", "map_query", "map_case", "before_call", "after_call", "check-runtime-error", "drop-connection", "handler-raises", "serializer", "drop-some-inputs"]
 CHECK_SETS = [["not_a_server_error"], ["not_a_server_error", "content_type_conformance"], ["not_a_server_error", "status_code_conformance", "content_type_conformance", "response_schema_conformance"], ["status_code_conformance", "response_schema_conformance"]]
 
 
@@ -47,6 +47,12 @@ def fault_case(draw):
     # `plain`: the only input is an unconstrained string, which negative mode cannot violate (skipped there)
     ops = [{"path": f"/r{i}", "behaviour": draw(st.sampled_from(BEHAVIOURS)), "with_example": draw(st.booleans()), "plain": draw(st.integers(0, 3)) == 0} for i in range(n)]
     fault = draw(st.sampled_from(FAULTS))
+    if draw(st.integers(0, 7)) == 0:
+        # an error on the simplest inputs of an operation and a failing check on the others: both must be reported
+        k = draw(st.integers(0, n - 1))
+        ops[k].update(behaviour=draw(st.sampled_from(["500", "bad-body", "undocumented-status"])), plain=False)
+        return {"ops": ops, "links": False, "fault": "drop-some-inputs", "fault_op": k, "fault_k": 1, "fault_once": False, "phases": draw(st.sampled_from([["fuzzing"], ["coverage", "fuzzing"]])),
+                "checks": CHECK_SETS[2], "workers": draw(st.sampled_from([1, 2])), "continue_on_failure": draw(st.booleans()), "max_failures": None, "unique_inputs": draw(st.booleans()), "mode": "positive", "seed": draw(st.integers(0, 1000))}
     return {
         "ops": ops,
         "links": draw(st.booleans()),
@@ -156,6 +162,10 @@ def check_faults(ctx: Ctx, inp) -> None:
         if req.path == "/c":
             return loopback.json_reply(201, {"id": 7})
         op = by_path.get(req.path)
+        if fault == "drop-some-inputs" and req.path == target and ("q=" not in req.query or re.search(r"(^|&)q=(0|-\d+)(&|$)", req.query)):
+            # a transport error for part of the input space (reproducible), next to whatever the operation does otherwise
+            fired["n"] += 1
+            return loopback.Reply(close=True)
         if fault == "drop-connection" and (req.path == target or (target == "/c/{id}" and req.path.startswith("/c/"))):
             calls_drop["n"] += 1
             if not inp.get("fault_once") or calls_drop["n"] == 1 + inp["fault_k"] % 4:
@@ -313,7 +323,7 @@ def check_faults(ctx: Ctx, inp) -> None:
     if interrupted:
         ctx.inconclusive_case("run was interrupted")
         return
-    stage = {"before_init_operation": "construction", "malformed-operation": "construction", "binary-example": "construction", "before_generate_query": "generation", "map_query": "generation", "map_case": "generation", "before_call": "transport", "drop-connection": "transport", "serializer": "serialization", "after_call": "checks", "check-runtime-error": "checks", "handler-raises": "event-handling"}.get(fault)
+    stage = {"before_init_operation": "construction", "malformed-operation": "construction", "binary-example": "construction", "before_generate_query": "generation", "map_query": "generation", "map_case": "generation", "before_call": "transport", "drop-connection": "transport", "drop-some-inputs": "transport", "serializer": "serialization", "after_call": "checks", "check-runtime-error": "checks", "handler-raises": "event-handling"}.get(fault)
     # (i) violating responses
     if expected:
         if code == 0:
